@@ -534,7 +534,7 @@ def check(rep, tier, replay=None):
     rep.rule("N2", "dx = Hinv (-J'r) on every path (dense and sparse J)")
     rep.rule("N3", "dphi == d/dlambda |D dx(lambda)| in operator normal form")
     rep.rule("N4", "solve_trust_region: lambda = 1/Delta, returns {solve_linear_ldlt(J,d,r,lambda), lambda}")
-    rep.rule("N5", "colwise_norm: sparse branch indexes by the iterator's column, squares, takes the root; dense branch is colwise().norm()", minimum=2)
+    rep.rule("N5", "colwise_norm: sparse branch indexes by the iterator's column, squares, takes the root; dense branch is colwise().norm()", minimum=3)
     if len(fns) != 1:
         rep.broke("solve_linear_ldlt not found (%d)" % len(fns))
         return
@@ -660,6 +660,38 @@ def check_n5(rep, d):
         rep.broke("N5: sparse branch has %d inner iterators and %d accumulations" % (len(its), len(acc)))
         return
     it = its[0].get("name")
+    # the outer loop must visit every outer vector: i in [0, M.outerSize()), the iterator constructed as (M, i)
+    outer_ok, outer_why = None, ""
+    for lp in A.walk(sparse):
+        if lp.get("kind") == "ForStmt" and any(v is its[0] for v in A.walk(lp)):
+            ks_ = A.kids(lp)
+            var = next((v.get("name") for v in A.kids(ks_[0]) if v.get("kind") == "VarDecl"), None) if ks_[0].get("kind") == "DeclStmt" else None
+            if var is None or var == it:
+                continue
+            init = next((A.to_expr(A.kids(v)[-1]) for v in A.kids(ks_[0]) if v.get("kind") == "VarDecl" and A.kids(v)), None)
+            cnd = A.to_expr(ks_[2]) if ks_[2].get("kind") else None
+            bound = A.show(cnd[3]).replace(" ", "") if cnd and cnd[0] == "op" and cnd[1] in ("<", "!=") and cnd[2][0] == "ref" and cnd[2][1] == var else None
+            itinit = A.to_expr(A.kids(its[0])[-1])
+            itargs = itinit[2] if itinit[0] in ("ctor", "call") else (itinit[1] if itinit[0] == "init" else [])
+            it_ok = len(itargs) == 2 and itargs[0][0] == "ref" and itargs[0][1] == M and itargs[1][0] == "ref" and itargs[1][1] == var
+            if bound is None or init != ("num", 0) or not it_ok:
+                outer_ok, outer_why = None, "outer loop shape"
+            elif bound == "%s.outerSize()" % M:
+                outer_ok = True
+            elif bound in ("%s.cols()" % M, "%s.rows()" % M, "%s.innerSize()" % M):
+                outer_ok, outer_why = False, ("the outer loop runs to %s, which is the number of outer vectors only for one storage order (and only for square "
+                                               "matrices otherwise): entries of the remaining outer vectors are never accumulated" % bound)
+            else:
+                outer_ok, outer_why = None, "outer loop bound %s" % bound
+            outer_node = lp
+            break
+    if outer_ok is None:
+        rep.broke("N5: cannot interpret the outer loop of colwise_norm's sparse branch (%s)" % (outer_why or "not found"))
+    else:
+        fo, lo = A.loc(outer_node)
+        rep.instance("N5", "colwise_norm", "sparse outer loop", ok=outer_ok, sample={"file": fe.rel(fo), "line": lo})
+        if not outer_ok:
+            rep.violation(Finding("N5", "colwise_norm", "sparse outer loop", outer_why, fo, lo))
     e, node = acc[0]
     tgt = e[2]
     idxs = tgt[2] if tgt[0] == "call" else (tgt[4] if tgt[0] == "mcall" else (tgt[2] if tgt[0] == "sub" else None))
